@@ -29,6 +29,8 @@ func init() {
 		Run:         runC06,
 		Configs:     []string{"linux/amd64", "darwin/amd64", "windows/amd64"},
 		Mutants: []Mutant{
+			{Name: "slot-released-by-defer", File: "lintcmd/runner/runner.go", Rule: "R6.8", KeyPart: "genericHandle::slot-released-before-enqueueing",
+				Old: "\t\t\ta.AddError(err)\n\t\t}\n\t}\n\tif sem != nil {\n\t\tsem.Release()\n\t}\n", New: "\t\t\ta.AddError(err)\n\t\t}\n\t}\n\tif sem != nil {\n\t\tdefer sem.Release()\n\t}\n"},
 			{Name: "ignored-problems-skip-later-directives", File: "lintcmd/lint.go", Rule: "R6.7", KeyPart: "filterIgnored::every-directive-tested-against-every-problem",
 				Old: "\t\t\tdiag := &diagnostics[i]\n\t\t\tif ig.match(*diag) {", New: "\t\t\tdiag := &diagnostics[i]\n\t\t\tif diag.Severity == severityIgnored {\n\t\t\t\tcontinue\n\t\t\t}\n\t\t\tif ig.match(*diag) {"},
 			{Name: "u1000-key-without-package-path", File: "lintcmd/lint.go", Rule: "R6.6", KeyPart: "identifies-object-within-its-package",
@@ -643,6 +645,41 @@ func runC06(c *Ctx) {
 		c.Floor("R6.7", 1)
 		directivePairObligations(c)
 	})
+	// R6.8: a handler gives its worker slot back before it hands newly ready
+	// dependents to the scheduler. The package queue is unbuffered and the
+	// scheduler acquires a slot before it receives the next action; a handler
+	// that still holds its slot while it blocks on the send deadlocks the run as
+	// soon as every slot is held by such a handler (few CPUs, wide fan-out).
+	c.Rule("R6.8", func() {
+		c.Floor("R6.8", 1)
+		slotReleasedBeforeSendObligations(c)
+	})
+}
+
+// slotReleasedBeforeSendObligations (shared by C06 R6.8 and C03 R3.10).
+func slotReleasedBeforeSendObligations(c *Ctx) {
+	gh := c.Func("lintcmd/runner", "genericHandle")
+	isRelease := func(in ssa.Instruction) bool {
+		call, ok := in.(*ssa.Call) // a deferred Release runs only when the function returns, i.e. after the sends
+		return ok && strings.HasSuffix(CalleeName(&call.Call), "sync.Semaphore.Release")
+	}
+	// no slot to release: the edges on which the semaphore is nil
+	noSem := EqEdges(gh, func(x, y ssa.Value) bool {
+		return IsNilConst(y) && strings.HasSuffix(x.Type().String(), "sync.Semaphore")
+	})
+	n := 0
+	Instrs(gh, false, func(in ssa.Instruction) {
+		snd, ok := in.(*ssa.Send)
+		if !ok {
+			return
+		}
+		n++
+		t, path := PathAvoiding(gh, nil, func(x ssa.Instruction) bool { return x == ssa.Instruction(snd) }, isRelease, noSem)
+		c.Check(FuncKey(gh)+"::slot-released-before-enqueueing#"+itoa(n), snd.Pos(), t == nil, "the handler must release its semaphore slot (not in a defer) before it sends a ready dependent to the queue: the queue is unbuffered and the scheduler needs a free slot to receive, so a handler that sends while holding its slot can deadlock the whole run; path to the send without a release: %s", PathString(gh, path))
+	})
+	if n == 0 {
+		c.Undecided("genericHandle no longer sends ready dependents to the queue")
+	}
 }
 
 // closuresOf returns the closures of parent that a call value may denote.
